@@ -316,6 +316,9 @@ class Irving:
       all entries are 0-indexed
       all arrays should have np.integer dtype.
     """
+    # Ranks are used as slice bounds below, so they must be integers even if the profile stores them as floats.
+    profile_1 = np.asarray(profile_1).astype(np.int64)
+    profile_2 = np.asarray(profile_2).astype(np.int64)
     n = profile_1.shape[0]
 
     # 0-indexed
